@@ -302,9 +302,14 @@ func doParseType(vt reflect.Type, def string, i *int, allowPtrs bool) (*Type, er
 		/* parse the pointer element recursively */
 		if ret.V, err = doParseType(vt.Elem(), def, i, false); err != nil {
 			return nil, err
-		} else {
-			return ret, nil
 		}
+
+		/* only scalars, strings and structs can be pointed to */
+		switch ret.V.T {
+		case T_map, T_set, T_list, T_binary:
+			return nil, EType(vt, "pointers to containers are not allowed")
+		}
+		return ret, nil
 	}
 
 	/* check for value kind */
